@@ -45,6 +45,8 @@ def _dump(payload, sub):
         os.chdir(env['cwd'])
     from dataflows import Flow, dump_to_path, dump_to_zip, filter_rows
     from ..core.ctx import jsonable
+    if payload.get('clock') is not None:
+        install_clock(payload['clock'], sub)
     links = []
     if payload.get('redump_from'):
         # the data comes from a package dumped earlier (its descriptor already carries that dump's counters)
@@ -86,6 +88,50 @@ def _dump(payload, sub):
     return {'stats': jsonable(stats)}
 
 
+def install_clock(now, sub):
+    """Clock seam: every wall-clock read on the dump path (zip entry stamps, workbook created / modified stamps)
+    answers the simulated instant ``now`` (epoch seconds)."""
+    import datetime as real_datetime
+    import time as real_time
+    import types
+    import zipfile as zf
+    reads = {'n': 0}
+
+    def fake_time():
+        reads['n'] += 1
+        sub.count('clock_reads')
+        return float(now)
+    tns = types.SimpleNamespace(**{k: getattr(real_time, k) for k in dir(real_time) if not k.startswith('__')})
+    tns.time = fake_time
+    # files written during the dump carry the simulated instant as their modification time (openpyxl adds worksheet
+    # parts to the container from temporary files: zipfile stamps those entries with localtime(st_mtime))
+    tns.localtime = lambda secs=None: real_time.localtime(fake_time())
+    zf.time = tns
+
+    class SimDateTime(real_datetime.datetime):
+        @classmethod
+        def now(cls, tz=None):
+            reads['n'] += 1
+            sub.count('clock_reads')
+            return real_datetime.datetime.fromtimestamp(now, tz)
+
+        @classmethod
+        def utcnow(cls):
+            reads['n'] += 1
+            sub.count('clock_reads')
+            return real_datetime.datetime.fromtimestamp(now, real_datetime.timezone.utc).replace(tzinfo=None)
+    dns = types.SimpleNamespace(**{k: getattr(real_datetime, k) for k in dir(real_datetime) if not k.startswith('__')})
+    dns.datetime = SimDateTime
+    try:
+        import openpyxl.packaging.core as opc
+        import openpyxl.writer.excel as owe
+        opc.datetime = dns
+        owe.datetime = dns
+    except ImportError:
+        pass
+    return reads
+
+
 def read_package(target, out):
     if target == 'path':
         def rd(p):
@@ -108,6 +154,15 @@ def read_package(target, out):
 
 
 def count_rows(fmt, data):
+    if fmt == 'excel':
+        import openpyxl
+        wb = openpyxl.load_workbook(io.BytesIO(data), read_only=False)
+        try:
+            ws = wb.worksheets[0]
+            rows = [r for r in ws.iter_rows(values_only=True)]
+            return max(0, len(rows) - 1)
+        finally:
+            wb.close()
     text = data.decode('utf-8')
     if fmt == 'json':
         return len(json.loads(text))
@@ -119,15 +174,15 @@ class C09(Prop):
     ID = 'C09'
     TITLE = 'Dump statistics describe the bytes on disk'
     LEVEL = 'exploration'
-    TECHNIQUE = 'deterministic simulation over durable state: recorded counters vs the bytes that reached the (scratch) disk / zip, two dumps in separate processes under different ambient TZ / umask / cwd / tempdir'
+    TECHNIQUE = 'deterministic simulation over durable state: recorded counters vs the bytes that reached the (scratch) disk / zip, two dumps in separate processes under different ambient TZ / umask / cwd / tempdir and simulated wall-clock instants'
     SIMTIME_UNIT = 'dumps (forked pipeline executions)'
-    RULE = ('one evaluation = 1-3 resources (0-40 rows, multi-byte text, nulls, empty resources) x csv|json x path|zip x counters default / renamed / dotted / partly disabled x '
-            'add_filehash_to_path x pretty_descriptor, dumped twice (second dump: other process, TZ, umask, cwd, temp dir). Non-trivial = at least one non-empty resource; '
+    RULE = ('one evaluation = 1-3 resources (0-40 rows, multi-byte text, nulls, empty resources) x csv|json|excel x path|zip x counters default / renamed / dotted / partly disabled x '
+            'add_filehash_to_path x pretty_descriptor, dumped twice (second dump: other process, TZ, umask, cwd, temp dir, and a later simulated wall-clock instant). Non-trivial = at least one non-empty resource; '
             'distinct = distinct (format, target, counter configuration, options, resource sizes).')
     ASSUMPTIONS = ['number of data rows of a csv file = records parsed by the stdlib csv module minus the header; of a json file = length of the top-level array',
                    'package totals are compared with the sums over the resources recorded in the same written descriptor']
     REAL_VS_STUB = {'real': ['dataflows dumpers, csv/json writers, zipfile, the file system'], 'stub': ['ambient environment (TZ, umask, cwd, tempdir) set per dump']}
-    PROBES = ['zip-target', 'json-format', 'counters-renamed', 'counters-dotted', 'counter-disabled', 'filehash-in-path', 'empty-resource', 'multibyte-text', 'multibyte-text-in-descriptor', 'compact-descriptor', 'dumper-drops-invalid-rows', 're-dump-of-a-loaded-package']
+    PROBES = ['zip-target', 'json-format', 'counters-renamed', 'counters-dotted', 'counter-disabled', 'filehash-in-path', 'empty-resource', 'multibyte-text', 'multibyte-text-in-descriptor', 'compact-descriptor', 'dumper-drops-invalid-rows', 're-dump-of-a-loaded-package', 'excel-format', 'second-dump-at-a-later-instant']
     TIERS = {'quick': dict(runs=700, wall=100, run_wall=300),
              'thorough': dict(runs=20000, wall=1700, run_wall=600)}
     SHRINK_FROZEN = ('fields',)
@@ -143,6 +198,8 @@ class C09(Prop):
             idc += n
         empty = [i for i in range(ntab) if rng.random() < 0.2]
         opts = {'format': rng.choice(['csv', 'csv', 'json'])}
+        if rng.random() < 0.12:
+            opts['format'] = 'excel'
         r = rng.random()
         if r < 0.25:
             opts['counters'] = {'datapackage-rowcount': 'rows', 'datapackage-bytes': 'size', 'datapackage-hash': 'md5', 'resource-rowcount': 'rows', 'resource-bytes': 'size', 'resource-hash': 'md5'}
@@ -166,9 +223,16 @@ class C09(Prop):
                 if ints and t['rows'] and ti not in empty:
                     for _ in range(rng.randrange(1, 3)):
                         corrupt.append([ti, rng.randrange(len(t['rows'])), rng.choice(ints)])
+        env2 = {'tz': rng.choice(['UTC', 'America/New_York', 'Asia/Kolkata', 'Pacific/Chatham']), 'umask': rng.choice([0o022, 0o077, 0o002]), 'cwd': 'elsewhere', 'tmp': 'othertmp'}
+        # simulated wall clock of the two dumps (epoch seconds): the second dump happens later - a second, an hour, a month
+        t1 = rng.choice([315619200, 951782400, 1700000000, 1735689599, 2524607999])      # 1980 (the zip epoch) .. 2049
+        clock = [t1, t1 + rng.choice([1, 2, 3600, 86400 * 30])]
+        if opts['format'] == 'excel' and rng.random() < 0.6:
+            # known finding C09-excel-hash-depends-on-clock: most excel scenarios dump twice at the same instant, in the same zone
+            clock[1] = t1
+            env2['tz'] = None
         return {'tables': tabs, 'empty': empty, 'opts': opts, 'corrupt': corrupt, 'redump': rng.random() < 0.3 and opts['format'] == 'csv', 'target': rng.choice(['path', 'path', 'zip']),
-                'title': rng.choice([None, None, 'plain', 'Données – 数据 \U0001F600']),
-                'env2': {'tz': rng.choice(['UTC', 'America/New_York', 'Asia/Kolkata', 'Pacific/Chatham']), 'umask': rng.choice([0o022, 0o077, 0o002]), 'cwd': 'elsewhere', 'tmp': 'othertmp'}}
+                'title': rng.choice([None, None, 'plain', 'Données – 数据 \U0001F600']), 'clock': clock, 'env2': env2}
 
     def execute(self, sc, ctx):
         if not sc.get('tables'):
@@ -182,6 +246,8 @@ class C09(Prop):
             ctx.probe('zip-target')
         if fmt == 'json':
             ctx.probe('json-format')
+        if fmt == 'excel':
+            ctx.probe('excel-format')
         cc = opts.get('counters') or {}
         if any(v and '.' in v for v in cc.values()):
             ctx.probe('counters-dotted')
@@ -209,7 +275,8 @@ class C09(Prop):
             os.makedirs(d)
             os.chdir(d)
             out = os.path.join(d, 'out' if target == 'path' else 'out.zip')
-            r = ctx.subrun(_dump, {'tables': sc['tables'], 'empty': sc.get('empty'), 'opts': opts, 'target': target, 'out': out, 'env': env, 'corrupt': sc.get('corrupt'), 'title': sc.get('title')})
+            r = ctx.subrun(_dump, {'tables': sc['tables'], 'empty': sc.get('empty'), 'opts': opts, 'target': target, 'out': out, 'env': env, 'corrupt': sc.get('corrupt'), 'title': sc.get('title'),
+                                   'clock': (sc.get('clock') or [None, None])[n]})
             if r['status'] != 'ok':
                 if n == 0:
                     ctx.discard('dump raises: %s' % json.dumps(r.get('exc'))[:300])
@@ -280,7 +347,14 @@ class C09(Prop):
                         ctx.violation('rowcount', 'resource-redump', 're-dump of a loaded package: resource %r records %s=%r, the file has %d data rows; %s' % (res['name'], counters['resource-rowcount'], rc, count_rows(fmt, data), desc_s), redump=True)
                     if counters['resource-hash'] and rh != hashlib.md5(data).hexdigest():
                         ctx.violation('hash', 'resource-redump', 're-dump of a loaded package: resource %r records a hash that is not the md5 of the file; %s' % (res['name'], desc_s), redump=True)
-        if results[0] != results[1]:
+        clock = sc.get('clock') or [None, None]
+        if clock[0] != clock[1]:
+            ctx.probe('second-dump-at-a-later-instant')
+        if results[0] != results[1] and fmt == 'excel' and (clock[0] != clock[1] or (sc.get('env2') or {}).get('tz')):
+            # lowest priority (known finding C09-excel-hash-depends-on-clock)
+            pending.insert(0, ('repeatable-hash', 'excel-clock', 'dumping the same data twice in excel format gave different hashes when the wall clock or the time zone differ: %r vs %r (clock %r, second dump under %r); %s' % (
+                results[0], results[1], clock, sc.get('env2'), desc_s), dict(clock=clock, tz2=(sc.get('env2') or {}).get('tz'))))
+        elif results[0] != results[1]:
             ctx.violation('repeatable-hash', 'differ', 'dumping the same data twice gave different hashes: %r vs %r (second dump under %r); %s' % (results[0], results[1], sc.get('env2'), desc_s))
         if any(t['rows'] for t in sc['tables']):
             ctx.nt(fmt, target, json.dumps(opts.get('counters'), sort_keys=True), opts.get('add_filehash_to_path'), opts.get('pretty_descriptor'), [len(t['rows']) for t in sc['tables']], sc.get('empty'))
